@@ -55,6 +55,27 @@ func main() {
 			usage()
 		}
 		os.Exit(check(os.Args[2], os.Args[3]))
+	case "digest":
+		// verif digest <ID> <cases> <tapes>: determinism probe (see ./check selftest)
+		n, _ := strconv.Atoi(os.Args[3])
+		k, _ := strconv.Atoi(os.Args[4])
+		var d string
+		var err error
+		switch os.Args[2] {
+		case "C03":
+			d, err = chancheck.Digest(chancheck.Options{Property: "C03", Seed: seed(), Workers: workers(), MaxStates: 200000}, n, k)
+		case "C11":
+			d, err = chancheck.Digest(chancheck.Options{Property: "C11", Seed: seed(), Workers: workers(), MaxStates: 200000, Callbacks: true}, n, k)
+		case "C13":
+			d, err = synccheck.Digest(seed(), workers(), n, k)
+		default:
+			err = fmt.Errorf("no digest for %s", os.Args[2])
+		}
+		if err != nil {
+			fmt.Fprintln(os.Stderr, err)
+			os.Exit(2)
+		}
+		fmt.Println(d)
 	case "gen":
 		// verif gen <ID> <case index>: print the generated case (debugging aid)
 		i, _ := strconv.Atoi(os.Args[3])
